@@ -10,6 +10,7 @@ import (
 	"encoding/json"
 	"errors"
 	"fmt"
+	"math/big"
 	"strings"
 	"time"
 
@@ -71,6 +72,9 @@ type c01Case struct {
 	Allowed    []string  `json:"allowed"`
 	Finder     c01Finder `json:"finder"`
 	Tag        string    `json:"tag"`
+	// jwt: the parser is pinned to this issuer / audience (empty = the "any" verifiers)
+	Issuer   string `json:"issuer,omitempty"`
+	Audience string `json:"audience,omitempty"`
 }
 
 type c01Hdr struct {
@@ -238,6 +242,12 @@ func c01RunGoatWith(cs c01Case, fixed sig.SigningKey) (out c01Out) {
 					IssuerSubjectVerifier: jwt.UnsecureAnyIssuerSubject,
 					AudienceVerifier:      jwt.UnsecureAnyAudience,
 				}
+				if cs.Issuer != "" {
+					p.IssuerSubjectVerifier = jwt.Issuer(cs.Issuer)
+				}
+				if cs.Audience != "" {
+					p.AudienceVerifier = jwt.Audience(cs.Audience)
+				}
 			}
 			tok, err := p.Parse(context.Background(), cs.Data)
 			if err != nil {
@@ -254,10 +264,15 @@ func c01RunGoatWith(cs c01Case, fixed sig.SigningKey) (out c01Out) {
 				out = c01Out{Tag: "err", Cls: cls, What: err.Error()}
 				return
 			}
-			out = c01Out{Tag: "ok", Prot: c01HdrOf(tok.Header), Claims: vf.FromJSON(tok.Claims.Raw)}
-			if tok.Claims.Raw == nil {
-				out.Claims = vf.Null()
+			tw := func(t time.Time) vf.Wire {
+				if t.IsZero() {
+					return vf.Null()
+				}
+				return vf.BigInt(new(big.Int).Add(new(big.Int).Mul(big.NewInt(t.Unix()), big.NewInt(1_000_000_000)), big.NewInt(int64(t.Nanosecond()))))
 			}
+			cl := tok.Claims
+			out = c01Out{Tag: "ok", Prot: c01HdrOf(tok.Header),
+				Claims: c01ClaimsWire(cl.Raw, cl.Issuer, cl.Subject, cl.Audience, cl.JWTID, tw(cl.ExpirationTime), tw(cl.NotBefore), tw(cl.IssuedAt))}
 		default:
 			var msg *jws.Message
 			var err error
@@ -298,10 +313,27 @@ func c01RunGoatWith(cs c01Case, fixed sig.SigningKey) (out c01Out) {
 	return
 }
 
+// c01ClaimsWire: the claims a successful Parse hands back — the decoded object AND the typed fields.
+func c01ClaimsWire(raw map[string]any, iss, sub string, aud []string, jti string, exp, nbf, iat vf.Wire) vf.Wire {
+	rw := vf.FromJSON(raw)
+	if raw == nil {
+		rw = vf.Null()
+	}
+	aw := make([]vf.Wire, len(aud))
+	for i, a := range aud {
+		aw[i] = vf.Str(a)
+	}
+	return vf.Obj(vf.KV{K: "raw", V: rw}, vf.KV{K: "iss", V: vf.Str(iss)}, vf.KV{K: "sub", V: vf.Str(sub)},
+		vf.KV{K: "aud", V: vf.Wire{Kind: vf.KArr, Arr: aw}}, vf.KV{K: "jti", V: vf.Str(jti)},
+		vf.KV{K: "exp", V: exp}, vf.KV{K: "nbf", V: nbf}, vf.KV{K: "iat", V: iat})
+}
+
 // c01ClaimsOracle is the abstract claims step of jwt.Parse for the claims this harness generates
-// (iss/sub/jti strings, aud string or array, exp/nbf/iat integers, custom members) with the
-// "any issuer / any audience" verifiers and the clock fixed at c01FixedNow.
-func c01ClaimsOracle(payload []byte) vf.Wire {
+// (iss/sub/jti strings, aud string or array, exp/nbf/iat integers, custom members), with the clock
+// fixed at c01FixedNow and the case's issuer / audience verifiers.  Members are looked up by their
+// EXACT names (Go map lookups): a member whose name merely resembles a registered claim name is an
+// unregistered member.
+func c01ClaimsOracle(cs c01Case, payload []byte) vf.Wire {
 	m, ok := DecodeJSONMap(payload)
 	if !ok {
 		return vf.None()
@@ -313,16 +345,36 @@ func c01ClaimsOracle(payload []byte) vf.Wire {
 			}
 		}
 	}
-	if aud, present := m["aud"]; present {
-		if arr, isArr := aud.([]any); isArr {
-			for _, e := range arr {
-				if _, isStr := e.(string); !isStr {
+	str := func(k string) string { s, _ := m[k].(string); return s }
+	if cs.Issuer != "" && str("iss") != cs.Issuer {
+		return vf.None()
+	}
+	var aud []string
+	if a, present := m["aud"]; present {
+		switch x := a.(type) {
+		case []any:
+			for _, e := range x {
+				s, isStr := e.(string)
+				if !isStr {
 					return vf.None()
 				}
+				aud = append(aud, s)
 			}
+		case string:
+			aud = []string{x}
+		}
+	}
+	if cs.Audience != "" {
+		found := false
+		for _, a := range aud {
+			found = found || a == cs.Audience
+		}
+		if !found {
+			return vf.None()
 		}
 	}
 	now := c01FixedNow.Unix()
+	times := map[string]vf.Wire{"exp": vf.Null(), "nbf": vf.Null(), "iat": vf.Null()}
 	for _, k := range []string{"exp", "nbf", "iat"} {
 		v, present := m[k]
 		if !present {
@@ -342,11 +394,9 @@ func c01ClaimsOracle(payload []byte) vf.Wire {
 		if k == "nbf" && now < i {
 			return vf.None()
 		}
+		times[k] = vf.BigInt(new(big.Int).Mul(big.NewInt(i), big.NewInt(1_000_000_000)))
 	}
-	if m == nil {
-		return vf.Null()
-	}
-	return vf.FromJSON(m)
+	return c01ClaimsWire(m, str("iss"), str("sub"), aud, str("jti"), times["exp"], times["nbf"], times["iat"])
 }
 
 func c01Oracle(cs c01Case) vf.OracleFn {
@@ -362,7 +412,7 @@ func c01Oracle(cs c01Case) vf.OracleFn {
 		"findKey":     func(a []vf.Wire) vf.Wire { return find(c01WireHdr(argN(a, 0)), c01WireHdr(argN(a, 1))) },
 		"jwt.findKey": func(a []vf.Wire) vf.Wire { return find(c01WireHdr(argN(a, 0)), c01Hdr{}) },
 		"c01.jwt.parseClaims": func(a []vf.Wire) vf.Wire {
-			return c01ClaimsOracle(argN(a, 0).Bytes)
+			return c01ClaimsOracle(cs, argN(a, 0).Bytes)
 		},
 	})
 }
@@ -535,7 +585,7 @@ func c01Direct(cs c01Case, out c01Out) string {
 			}
 		}
 		if cs.Kind == "jwt" {
-			if c := c01ClaimsOracle(want); c.Kind == vf.KNone || !c.Equal(out.Claims) {
+			if c := c01ClaimsOracle(cs, want); c.Kind == vf.KNone || !c.Equal(out.Claims) {
 				return "returned claims are not the decoding of the received payload segment"
 			}
 		} else if !bytes.Equal(want, out.Payload) {
